@@ -217,7 +217,7 @@ def make_ctx(year, C, inst, line_index, rich=True):
     return solver, form, fld, extra
 
 
-def run_once(ctx, script, sites=None):
+def run_once(ctx, script, sites=None, collect=None):
     """one execution of one line definition; returns (outcome tuple, trace)"""
     solver, form, fld, extra = ctx
     env = Env(solver, script, extra, sites)
@@ -234,10 +234,12 @@ def run_once(ctx, script, sites=None):
         out = ('raised', 'RecursionError', '')
     except Exception as e:
         out = ('raised', type(e).__name__, str(e)[:160])
+    if collect is not None:
+        collect.append((dict(env.memo), out))
     return out, env.trace, fld.name()
 
 
-def explore_line(year, C, inst, line_index, max_dev, cap, sites=None, rich=True):
+def explore_line(year, C, inst, line_index, max_dev, cap, sites=None, rich=True, collect=None):
     """DFS over answer vectors; returns dict(executions, outcomes {outcome: example script}, capped, full)"""
     outcomes = {}
     n = 0
@@ -256,7 +258,7 @@ def explore_line(year, C, inst, line_index, max_dev, cap, sites=None, rich=True)
                 capped = True
                 break
             n += 1
-            out, trace, lname = run_once(ctx, script, sites)
+            out, trace, lname = run_once(ctx, script, sites, collect)
             if out not in outcomes:
                 outcomes[out] = (list(script), [t[0] for t in trace])
             devs = sum(1 for k in script if k != 0)
